@@ -152,7 +152,7 @@ theorem inv_step {s : Net} {op : Op} (hnd : ∀ c d, op ≠ .disconnect c d) (hI
     | wdr hop ha hcidr hd hadv =>
       refine ⟨linked_step hnd (mem_peersOf hd).1, fun hw => ?_⟩
       rw [hadv] at hw; simp [withdrawAdv] at hw
-    | fwd a m hm hl ha hb hd hne hns hself hseen hsb hlim hadv =>
+    | fwd a m hm hl ha hb hd hne hns hself hseen hsb hlim hwire hadv =>
       refine ⟨linked_step hnd (mem_peersOf hd).1, fun hw hr => ?_⟩
       have hw' : m.wd = false := by rw [hadv, fwdAdv_wd] at hw; exact hw
       have hr' : m.routes ≠ [] := by
